@@ -466,6 +466,45 @@ func main() {
 				}
 			}
 		}
+		// the failed first resolution: `… ; err != nil { return "", err }`, or (before the repair of F16-11) a
+		// second attempt from interp.rootFromSourceLocation()
+		retry := "false"
+		if is != nil && len(resolveCalls) > 0 {
+			found := false
+			ast.Inspect(is, func(n ast.Node) bool {
+				ifs, ok := n.(*ast.IfStmt)
+				if !ok || ifs.Init == nil || found {
+					return true
+				}
+				as, ok := ifs.Init.(*ast.AssignStmt)
+				if !ok || len(as.Rhs) != 1 || as.Rhs[0] != ast.Expr(resolveCalls[0]) {
+					return true
+				}
+				be, ok := ifs.Cond.(*ast.BinaryExpr)
+				if !ok || be.Op != token.NEQ || exprString(be.X) != "err" || exprString(be.Y) != "nil" {
+					return true
+				}
+				found = true
+				again := mentions(ifs.Body, func(x ast.Node) bool {
+					c, ok := x.(*ast.CallExpr)
+					return ok && exprString(c.Fun) == "interp.rootFromSourceLocation"
+				})
+				switch {
+				case again && len(resolveCalls) == 2 && resolveCalls[1].Pos() > ifs.Body.Pos() && resolveCalls[1].End() < ifs.Body.End():
+					retry = "true"
+				case !again && len(resolveCalls) == 1 && len(ifs.Body.List) == 1:
+					if r, ok := ifs.Body.List[0].(*ast.ReturnStmt); !ok || len(r.Results) != 2 || exprString(r.Results[1]) != "err" {
+						order = append(order, "unrecognised: what importSrc does when the resolution fails")
+					}
+				default:
+					order = append(order, "unrecognised: what importSrc does when the resolution fails")
+				}
+				return true
+			})
+			if !found {
+				order = append(order, "unrecognised: the error test of importSrc's resolution")
+			}
+		}
 		// mainRoot: `case isPathRelative(rPath): rPath, err = interp.rootFromDir(filepath.Join(filepath.Dir(interp.name), rPath))`
 		relRoot := "false"
 		if mr := common.FindFunc(f, "Interpreter", "mainRoot"); mr != nil {
@@ -562,7 +601,7 @@ def words : Words :=
   { vendor := %s, vendorLit := %s, vendorDir := %s, src := %s, mainID := %s,
     defaultName := %s, noRoot := %s, vendorFirst := %s, effCandidate := %s, candMustBeDir := %s,
     vendorFileStops := %s, goFilesSkip := %s, rejectVendor := %s, mainRoot := %s, relRoot := %s,
-    relKey := %s, relSub := %s }
+    relKey := %s, relSub := %s, retry := %s }
 /-- importSrc: bookkeeping statements in source order -/
 def importOrder : List String := %s
 /-- io/fs calls (with their file-system argument) in importSrc, goPkgDir, hasGoFiles, pkgDir, isDir,
@@ -581,7 +620,7 @@ def sourceHashes : List (String × String) :=
 end YaegiVerif.Generated.C16
 `, common.LeanStr(vendorConst), common.LeanStr(vendorLit), common.LeanStr(vendorDir), common.LeanStr(src), common.LeanStr(mainID),
 			common.LeanStr(defaultName), common.LeanStr(noRoot), vendorFirst, effCandidate, candMustBeDir, vendorFileStops, goFilesSkip, rejectVendor,
-			mainRootArg, relRoot, relKey, relSub,
+			mainRootArg, relRoot, relKey, relSub, retry,
 			common.LeanStrList(order), common.LeanStrList(uniq(fsCalls)), common.LeanStrList(uniq(osCalls)), common.LeanStrList(uniq(wdCalls)), gtaCollapse,
 			common.HashTable(fset, f, [][2]string{{"Interpreter", "importSrc"}, {"Interpreter", "rootFromSourceLocation"},
 				{"Interpreter", "rootFromDir"}, {"Interpreter", "mainRoot"}, {"Interpreter", "goPkgDir"}, {"", "hasGoFiles"},
